@@ -285,10 +285,9 @@ MUTANTS += [
     m('B06-2', 'close: resize(1)', ['C06'], ['R06.1'],
       (M, "        self.resize(0);\n        self.inner.semaphore.close();\n", "        self.resize(1);\n        self.inner.semaphore.close();\n")),
     m('B06-3', 'resize: no early return when closed', ['C06'], ['R06.2'],
-      (M, "        if self.inner.semaphore.is_closed() {\n            return;\n        }\n        let mut slots", "        let mut slots")),
+      (M, "        if self.inner.semaphore.is_closed() {\n            return;\n        }\n        let old_max_size", "        let old_max_size")),
     m('B06-4', 'revert D6: close does not drain', ['C06'], ['R06.5'],
-      (M, """        let mut slots = self.inner.slots.lock().unwrap();
-        while let Some(mut obj) = slots.vec.pop_front() {
+      (M, """        while let Some(mut obj) = slots.vec.pop_front() {
             slots.size -= 1;
             self.inner.manager.detach(&mut obj.obj);
         }
@@ -303,9 +302,12 @@ MUTANTS += [
       (M, "        while let Some(mut obj) = slots.vec.pop_front() {\n            slots.size -= 1;\n            self.inner.manager.detach", "        while let Some(mut obj) = slots.vec.pop_front() {\n            self.inner.manager.detach")),
     m('B06-9', 'is_closed reports on max_size instead of the semaphore', ['C06'], ['R06.2'],
       (M, "    pub fn is_closed(&self) -> bool {\n        self.inner.semaphore.is_closed()", "    pub fn is_closed(&self) -> bool {\n        self.inner.slots.lock().unwrap().max_size == 0")),
-    m('B06-10', 'resize closed test after the max_size write', ['C06'], ['R06.2'],
-      (M, "        if self.inner.semaphore.is_closed() {\n            return;\n        }\n        let mut slots = self.inner.slots.lock().unwrap();\n        let old_max_size = slots.max_size;\n        slots.max_size = max_size;\n",
-          "        let mut slots = self.inner.slots.lock().unwrap();\n        let old_max_size = slots.max_size;\n        slots.max_size = max_size;\n        if self.inner.semaphore.is_closed() {\n            return;\n        }\n")),
+    m('B06-10', 'revert D10a: resize tests is_closed() before taking the lock', ['C06'], ['R06.2'],
+      (M, "        let mut slots = self.inner.slots.lock().unwrap();\n        // This check needs to happen while holding the lock. Otherwise a\n        // concurrent `close()` could finish between the check and the update\n        // and the closed pool would end up with a non-zero `max_size`.\n        if self.inner.semaphore.is_closed() {\n            return;\n        }\n", "        if self.inner.semaphore.is_closed() {\n            return;\n        }\n        let mut slots = self.inner.slots.lock().unwrap();\n")),
+    m('B06-11', 'revert D10b: close does not zero max_size', ['C06'], ['R06.7'],
+      (M, "        slots.max_size = 0;\n        while let Some(mut obj)", "        while let Some(mut obj)")),
+    m('B06-12', 'resize writes max_size before the closed test', ['C06'], ['R06.2'],
+      (M, "        if self.inner.semaphore.is_closed() {\n            return;\n        }\n        let old_max_size = slots.max_size;\n        slots.max_size = max_size;\n", "        let old_max_size = slots.max_size;\n        slots.max_size = max_size;\n        if self.inner.semaphore.is_closed() {\n            return;\n        }\n")),
 
     m('B08-1', 'pop_front / pop_back swapped between the modes', ['C08'], ['R08.1'],
       (M, "                QueueMode::Fifo => self.inner.slots.lock().unwrap().vec.pop_front(),\n                QueueMode::Lifo => self.inner.slots.lock().unwrap().vec.pop_back(),", "                QueueMode::Fifo => self.inner.slots.lock().unwrap().vec.pop_back(),\n                QueueMode::Lifo => self.inner.slots.lock().unwrap().vec.pop_front(),")),
@@ -363,19 +365,10 @@ MUTANTS += [
 B = 'src/managed/builder.rs'
 MUTANTS += [
     m('B05-1', '_add: permit added before the push', ['C05'], ['R05.3'],
-      (U, """        {
-            let mut queue = self.inner.queue.lock().unwrap();
-            queue.push(object);
-        }
-        let _ = self.inner.available.fetch_add(1, Ordering::Relaxed);
-        self.inner.semaphore.add_permits(1);
-    }""", """        self.inner.semaphore.add_permits(1);
-        {
-            let mut queue = self.inner.queue.lock().unwrap();
-            queue.push(object);
-        }
-        let _ = self.inner.available.fetch_add(1, Ordering::Relaxed);
-    }""")),
+      (U, "    fn _add(&self, object: T) -> Result<(), T> {\n        {", "    fn _add(&self, object: T) -> Result<(), T> {\n        self.inner.semaphore.add_permits(1);\n        {"),
+      (U, "        let _ = self.inner.available.fetch_add(1, Ordering::Relaxed);\n        self.inner.semaphore.add_permits(1);\n        Ok(())", "        let _ = self.inner.available.fetch_add(1, Ordering::Relaxed);\n        Ok(())")),
+    m('B05-13', 'revert D9: _add pushes without re-checking closed', ['C12', 'C05'], ['R12.4'],
+      (U, "            if self.inner.is_closed() {\n                return Err(object);\n            }\n", "")),
     m('B05-2', 'take does not return the size slot', ['C05'], ['R05.4'],
       (U, "            let _ = pool.size.fetch_sub(1, Ordering::Relaxed);\n            pool.size_semaphore.add_permits(1);", "            let _ = pool.size.fetch_sub(1, Ordering::Relaxed);")),
     m('B05-3', 'try_add: NoPermits reported as Closed', ['C05'], ['R05.5'],
@@ -669,7 +662,7 @@ MUTANTS += [
     }
 }
 
-#[derive(Debug)]""", """        Self {
+/// This error is returned""", """        Self {
             db: info.db,
             username: None,
             password: info.password,
@@ -678,7 +671,7 @@ MUTANTS += [
     }
 }
 
-#[derive(Debug)]""")),
+/// This error is returned""")),
     m('B19-3', 'default queue mode Lifo', ['C19'], ['R19.3'],
       ('src/managed/config.rs', "impl Default for QueueMode {\n    fn default() -> Self {\n        Self::Fifo", "impl Default for QueueMode {\n    fn default() -> Self {\n        Self::Lifo")),
     m('B19-4', 'protocol RESP3 converts to RESP2', ['C19'], ['R19.2'],
